@@ -42,14 +42,35 @@ def r1_cancellation(rule, root=None):
     else:
         rule.bad("mesh|complete", "recurse must end with `true`", A.where(fn))
     b = A.find_fn(OCT, "build_inner", self_ty="Octree", root=root)
-    t = txt(b["body"])
-    if "ifout.recurse(&muteval,CellIndex::default(),&muthermite){Some(out.octree)}else{None}" in t:
+
+    def resolved(fn_, c):
+        """condition text with a plain local replaced by what it was bound to"""
+        neg = c.startswith("!")
+        core = c[1:] if neg else c
+        for s_ in A.find(fn_["body"], "Let"):
+            if A.binding_name(s_["pat"]) == core and s_.get("init") is not None:
+                core = A.norm_cond(A.unparse(s_["init"]).replace(" ", ""))
+        return ("!" if neg else "") + core
+
+    cases = [(str(txt(leaf)), [resolved(b, A.norm_cond(c)) for c in cs]) for leaf, cs in A.result_cases(b["body"])]
+    rec_true = [cs for v, cs in cases if v.startswith("Some(") and v.endswith(".octree)") and any(c.startswith("out.recurse(") or c.startswith(v[5:-8] + ".recurse(") for c in cs)]
+    rec_false = [cs for v, cs in cases if v == "None" and any(c.startswith("!") and ".recurse(" in c for c in cs)]
+    if rec_true and rec_false and not [1 for v, cs in cases if v.startswith("Some(") and any(c.startswith("!") and ".recurse(" in c for c in cs)]:
         rule.ok("mesh (single thread): the octree is returned iff the root was not aborted")
     else:
-        rule.bad("mesh|st-result", "build_inner must return Some(octree) exactly when recurse returned true", A.where(b))
+        rule.bad("mesh|st-result", "build_inner must return Some(octree) exactly when recurse returned true (cases: %s)" % cases[:4], A.where(b))
     m = A.find_fn(OCT, "build_inner_mt", self_ty="Octree", root=root)
     t = txt(m["body"])
-    if "if!builder.recurse(eval,local_cell,&muthermite){returnNone;}" in t and ".collect::<Option<Vec<_>>>()})?;" in t:
+    ok_mt = False
+    for c in A.find(m["body"], "MethodCall"):
+        if c["method"] == "map_init" and len(c["args"]) == 2 and c["args"][1].get("k") == "Closure":
+            cl = c["args"][1]
+            cc = [(str(txt(leaf))[:12], [A.norm_cond(x) for x in cs]) for leaf, cs in A.result_cases(cl["body"])]
+            nones = [cs for v, cs in cc if v == "None"]
+            somes = [cs for v, cs in cc if v.startswith("Some(")]
+            if nones and somes and all(any(x.startswith("!") and ".recurse(" in x for x in cs) for cs in nones) and all(any((not x.startswith("!")) and ".recurse(" in x for x in cs) for cs in somes):
+                ok_mt = True
+    if ok_mt and ".collect::<Option<Vec<_>>>()})?;" in t:
         rule.ok("mesh (pool): any aborted task turns the whole build into None")
     else:
         rule.bad("mesh|mt-result", "build_inner_mt must map an aborted task to None and collect into Option<Vec<_>> propagated with `?`", A.where(m))
